@@ -76,6 +76,15 @@ class C19(Spec):
             c = list(SETUP)
             for x in seq: c += x.split("\n")
             cases.append(c)
+        # the same for a SECURE key (`$$…`: only the administrator's session and the cluster command can write it): it lives in the same database
+        # and goes through the same strategy — on the database created as `newer`, and on `$admin`, which is `newer` by default
+        als = [x for x in alphabet(("$$flag",)) if not x.startswith("C 2")] + ["C 1 set-safe $$flag 0 t0", "C 1 set-safe $$flag 1 t1", "C 1 set-safe $$flag 3 t3"]
+        for seq in itertools.product(als, repeat=3 if tier == "quick" else 4):
+            c = list(SETUP)
+            for x in seq: c += x.split("\n")
+            cases.append(c)
+        for seq in itertools.product(["C 1 set-safe $$m 3 on", "C 1 set-safe $$m 1 off", "C 1 set-safe $$m 0 zero", "C 1 set $$m plain", "C 1 get-safe $$m"], repeat=3):
+            cases.append(list(SETUP) + ["C 1 use-db $admin pw"] + list(seq))
         rng = core.XorShift(seed)
         al2 = alphabet(("a", "b"))
         for _ in range(1500 if tier == "quick" else 30000):
@@ -102,7 +111,10 @@ class C19(Spec):
                 r = next((x for x in rest if x.startswith("R ")), "R ?")
                 if r.startswith("R PANIC"): fails.append(Failure("panic", f"{inp}: {r}")); break
                 if p[2] == "replicate" and len(p) >= 7 and p[3] == "t": p = [p[0], p[1], "set-safe", p[4], p[5]] + p[6:]      # replicate <db> <key> <version> <value>
-                if p[2] in ("set", "set-safe") and len(p) >= 5 and p[3] in ("a", "b"):
+                if p[2] in ("set", "set-safe") and len(p) >= 5 and p[3] == "$$m":
+                    # (the administrator's database: the dump compared here is database t's — only the acceptance is judged)
+                    if r != "R ok": fails.append(Failure("newer-write-refused", f"{inp}: {r}"))
+                if p[2] in ("set", "set-safe") and len(p) >= 5 and p[3] in ("a", "b", "$$flag"):
                     k = p[3]; val = core.unesc(" ".join(p[5:] if p[2] == "set-safe" else p[4:])).decode()
                     if r != "R ok":
                         fails.append(Failure("newer-write-refused", f"{inp}: {r}"))
